@@ -152,6 +152,11 @@ fn main() {
             zone::zone_runs(&mut out, seed, geti(&m, "runs", 6), geti(&m, "len", 60));
             write_out(&m, &props, &out.lines);
         }
+        "script" => {
+            let mut out = seq::Out::new();
+            seq::script_runs(&mut out, m.get("in").expect("in=FILE"));
+            write_out(&m, &props, &out.lines);
+        }
         "crashseq" => {
             // random single-thread programs, a crash probe before every write to the lower metadata
             let mut out = seq::Out::new();
